@@ -54,8 +54,13 @@ def run_shard_inprocess(pid: str, spec: dict) -> Acc:
     hub.reset(acc)
     mod = prop_module(pid)
     hub.scan_crash_owner = pid if pid in ("C02", "C04", "C08", "C09", "C10", "C14", "C15") else "C04"
+    from .budget import ShardAbort
+
     try:
         _run_shard(pid, spec, acc, mod)
+    except ShardAbort as e:
+        acc.count("shards_stopped_after_exhausted_step_budgets")
+        acc.flags["stopped_early"] = f"{e}"
     except Exception as e:  # noqa: BLE001  keep what the monitors recorded before the shard died
         import traceback
 
